@@ -949,6 +949,19 @@ fn main() {
                 tries = 2;
                 let (l2, rt2) = oracle(&p, &r2);
                 if l2.len() + rt2.len() <= l.len() + rt.len() { r = r2; l = l2; rt = rt2; }
+                // a failure that is only runtime-shaped (timeouts on a loaded machine) must repeat with
+                // GENEROUS timeouts before it counts: two more attempts, the last one after the other
+                // workers have had time to drain; a deterministic defect fails all of them
+                for extra in 0..2u64 {
+                    if (l.is_empty() && rt.is_empty()) || known_class(&p, &r, &rt).is_some() { break; }
+                    std::thread::sleep(Duration::from_secs(2 + 3 * extra));
+                    let tmo3 = Timeouts { gather: Duration::from_secs(15), connect: Duration::from_secs(30), deliver: Duration::from_secs(8),
+                                          deliver_data: Duration::from_secs(20), answer_delay: tmo.answer_delay, scn: tmo.scn };
+                    let r3 = run_blocking(p, &tmo3, rt_workers);
+                    tries += 1;
+                    let (l3, rt3) = oracle(&p, &r3);
+                    if l3.len() + rt3.len() <= l.len() + rt.len() { r = r3; l = l3; rt = rt3; }
+                }
             }
             if (!l.is_empty() || !rt.is_empty()) && known_class(&p, &r, &rt).is_none() { failed.fetch_add(1, Ordering::SeqCst); }
             results.lock().unwrap()[i] = Some((r, tries, first));
